@@ -60,19 +60,25 @@ def harness_cfg(cc, **extra):
     return cfg
 
 
-def tlc_start(jobs, workers, timeout, parallel):
+ACTIONS = ("Start", "Tick", "Deliver", "Read", "Expire", "Put", "Split", "Merge", "StartCkpt", "Barrier", "Complete")
+
+
+def tlc_start(jobs, workers, timeout, parallel, coverage=False):
     def one(j):
         cc, invs, expect, label = j
         return j, vlib.run_tlc("KinesisReader", cfg=dict(constants=cc, invariants=invs, view="View"), workers=workers, timeout=timeout,
-                               name="KinesisReader-x")
+                               name="KinesisReader-x", coverage=coverage and not expect)
     ex = ThreadPoolExecutor(max_workers=parallel)
     return ex, [ex.submit(one, j) for j in jobs]
 
 
-def tlc_collect(c, started):
+def tlc_collect(c, started, coverage=False):
     ex, futs = started
+    cov = {}
     for f in futs:
         (cc, invs, expect, label), r = f.result()
+        for a, n in r.coverage.items():
+            cov[a] = cov.get(a, 0) + n
         if expect:
             c.add_tlc(r, label, must_hold=False)
             if r.violated != expect:
@@ -81,6 +87,11 @@ def tlc_collect(c, started):
         else:
             c.add_tlc(r, label)
     ex.shutdown()
+    if coverage:
+        c.extra["KinesisReader_action_coverage"] = {a: cov.get(a, 0) for a in ACTIONS}
+        for a in ACTIONS:
+            if not cov.get(a):
+                c.errors.append("KinesisReader action %s was never taken in the exhaustive runs (vacuous)" % a)
 
 
 def replay_gen(c, cc, num, seed, label=None):
@@ -150,7 +161,7 @@ def reader_half(c):
     if quick:
         d1 = consts(ninit=1, shards=3, runners=(1, 2), rec=2, page=2, starts=2, ckpts=1)
         d2 = consts(ninit=1, shards=1, runners=(1, 2), rec=2, page=2, starts=3, ckpts=2)
-        c1 = consts(ninit=1, shards=3, runners=(1, 2), rec=1, page=1, starts=2, ckpts=1, **CODE)
+        c1 = consts(ninit=2, shards=3, runners=(1, 2), rec=1, page=1, starts=2, ckpts=1, **CODE)  # Merge (N=1 covers Split)
         jobs = [(d1, ["DesignOK"] + INVS, None, "KinesisReader design " + brief(d1)),
                 (d2, ["DesignOK"] + INVS, None, "KinesisReader design " + brief(d2)),
                 (c1, ["Attributed"] + INVS, None, "KinesisReader code " + brief(c1))]
@@ -170,30 +181,38 @@ def reader_half(c):
         cc = consts(ninit=1, runners=(1,), **dict(dict(starts=2, ckpts=1), **dict(kw, **{sw: True})))
         jobs.append((cc, ["DesignOK"], "DesignOK", "KinesisReader non-vacuity " + brief(cc)))
     vlib.build("kreader")
-    started = tlc_start(jobs, wk, tl, par)
+    started = tlc_start(jobs, wk, tl, par, coverage=not quick)
     wex = ThreadPoolExecutor(max_workers=1)
     wfut = wex.submit(witnesses, quick, s * 1000 + 373)
     c.exhaustive = True
 
     if quick:
-        gens = [(consts(ninit=2, shards=5, runners=(1, 2), rec=3, page=2, starts=3, ckpts=3, maxlen=60, log=True, **CODE), 70),
-                (consts(ninit=1, shards=4, runners=(1, 2, 3), rec=4, page=3, starts=4, ckpts=4, maxlen=70, log=True, **CODE), 70),
-                (consts(ninit=3, shards=6, runners=(1, 2, 3), rec=2, page=2, starts=3, ckpts=3, maxlen=80, log=True, **CODE), 50),
-                (consts(ninit=1, shards=3, runners=(1, 2), rec=4, page=2, starts=5, ckpts=5, maxlen=60, log=True, **CODE), 70)]
+        gens = [(consts(ninit=2, shards=5, runners=(1, 2), rec=3, page=2, starts=3, ckpts=3, maxlen=60, log=True, **CODE), 100),
+                (consts(ninit=1, shards=4, runners=(1, 2, 3), rec=4, page=3, starts=4, ckpts=4, maxlen=70, log=True, **CODE), 100),
+                (consts(ninit=3, shards=6, runners=(1, 2, 3), rec=2, page=2, starts=3, ckpts=3, maxlen=80, log=True, **CODE), 70),
+                (consts(ninit=1, shards=3, runners=(1, 2), rec=4, page=2, starts=5, ckpts=5, maxlen=60, log=True, **CODE), 100)]
     else:
         gens = [(consts(ninit=n, shards=sh, runners=rs, rec=rec, page=pg, starts=st, ckpts=st, maxlen=ml, log=True, **CODE), 500)
                 for n, sh, rs, rec, pg, st, ml in ((1, 3, (1, 2), 4, 3, 4, 60), (1, 5, (1, 2, 3), 3, 2, 4, 80), (2, 5, (1, 2), 3, 2, 3, 70),
                                                    (2, 7, (1, 2, 3), 2, 2, 4, 100), (3, 6, (2, 3), 3, 3, 3, 90), (2, 6, (1,), 4, 2, 5, 100))]
-    first = None
+    first, steps = None, {}
     for i, (cc, num) in enumerate(gens):
         behs, res = replay_gen(c, cc, num, s * 1000 + 300 + i)
+        for k, v in res.get("counters", {}).items():
+            steps[k] = steps.get(k, 0) + v
         if first is None:
             first = behs[0]
+    c.extra["KinesisReader_steps_on_real_code"] = {a: steps.get("step:" + a, 0) for a in ACTIONS}
+    for a in ACTIONS:
+        if not steps.get("step:" + a):
+            c.errors.append("KinesisReader action %s was never executed on the real code (vacuous)" % a)
+    if not steps.get("records"):
+        c.errors.append("the replays read no record from kinesisfake (vacuous)")
     if first:
         c.sample(dict(kind="KinesisReader.tla behaviour (first steps)", steps=first[:16]))
     witnesses_collect(c, wfut.result())
     wex.shutdown()
-    tlc_collect(c, started)
+    tlc_collect(c, started, coverage=not quick)
     c.assumptions.append("C16 reader half (Kinesis): the job and the runner loop are played by the harness as jobs/job.go and "
                          "workers/sourcerunner do (per-runner FIFO of AssignSplits messages, one ReadEvents per Read step, "
                          "SourceReader.Checkpoint() at the barrier, NotifySplitsFinished forwarded before ReadEvents returns); records "
